@@ -161,3 +161,9 @@ pub proof fn lemma_pair_feed_symmetric(a: Term, b: Term)
 /// A2: a hash set's capacity is at least its length (and otherwise unrelated to its contents)
 pub assume_specification<T, S, A: std::alloc::Allocator>[ HashSet::<T, S, A>::capacity ](s: &HashSet<T, S, A>) -> (r: usize)
     ensures r >= s@.len();
+/// A2: `u64::rotate_left` / `rotate_right` are total functions of their arguments (not used on the
+/// pinned tree; stated so that a change that starts to mix digests with them stays decidable)
+pub uninterp spec fn rotl64(x: u64, n: u32) -> u64;
+pub uninterp spec fn rotr64(x: u64, n: u32) -> u64;
+pub assume_specification[ u64::rotate_left ](x: u64, n: u32) -> (r: u64) ensures r == rotl64(x, n);
+pub assume_specification[ u64::rotate_right ](x: u64, n: u32) -> (r: u64) ensures r == rotr64(x, n);
